@@ -26,7 +26,7 @@ TV = "translation_validation"
 prop("C01", "proof", "Lean 4 theorems: mapper == record-level retrace specification (all record lists, all frames), cache == mapper (C02), bytes -> records (C05) + differential correspondence",
      "Executable Lean model of parser, mapper and cache answers frame-by-line queries; every run compares it with the real crate on generated mappings x the query universe, and a metamorphic oracle checks independence from terminators, noise lines and block order.",
      "Model hand-written; tie is differential. Mapper side proved (record-level specification PG/Spec/Retrace.lean: last block with that name, entries in file order whose range contains the line, ProGuard line rule, sourceFile/synthetic/foreign-class file rule; unknown class/method => []; independent of parameter index and of other blocks); bytes -> records is C05; the cache side is C02.",
-     theorems=["PG.C01_mapper", "PG.C01_unknown_class", "PG.C01_unknown_method", "PG.C01_pm_indep", "PG.C01_offset_exact", "PG.C01_block_local", "PG.C01_cache", "PG.C01_file", "PG.C01_terminator_indep", "PG.okRecs_resync", "PG.okRecs_noise"], oracle=True)
+     theorems=["PG.C01_mapper", "PG.C01_unknown_class", "PG.C01_unknown_method", "PG.C01_pm_indep", "PG.C01_offset_exact", "PG.C01_block_local", "PG.C01_cache", "PG.C01_file", "PG.C01_terminator_indep", "PG.okRecs_resync", "PG.okRecs_noise", "PG.okRecs_printed"], oracle=True)
 prop("C02", "proof", "Lean 4 refinement proof (cache writer + reader == mapper == record-level specification) + differential correspondence",
      "Kernel-checked, for every record list in the representable domain (ReprR: names non-empty, line numbers < 2^32-1, strings valid UTF-8) whose tables fit the format's u32 counters (Small): the written bytes parse back to the written tables (serialisation round trip: little-endian u32s, 0-or-4-byte padding, header counts, LEB128-prefixed deduplicated string table); the tables represent the record stream (classes strictly sorted by name with last-block-wins, members grouped and sorted by obfuscated name in file order, by-params entries sorted by (name, args) after inline filtering and de-duplication, every offset resolving in the final string table, offsets identifying names); Rust's branch-free binary_search_by + linear range expansion on such tables return exactly the matching entries; hence class lookup, method lookup, frame remapping by line and by parameter list, throwable, text and typed stack-trace remapping and signature deobfuscation of the parsed cache equal those of the mapper (which equal the record-level specification, C01/C03/C04), for all query strings and line numbers; line-based mapper answers do not depend on the parameter index. The model is tied to the crate on every query kind over grammar, token-mutated, out-of-domain and corpus mappings, plus the direct oracle mapper == cache on the implementation's own answers.",
      "At the level of mapping bytes (C02_bytes) the only hypotheses are the genuine domain conditions (names non-empty, line numbers < 2^32-1) and a file size below 16 MiB (a non-tight bound under which the u32 counters provably cannot overflow): validity of UTF-8 of everything the parser yields and the size of the tables are proved.",
@@ -34,11 +34,11 @@ prop("C02", "proof", "Lean 4 refinement proof (cache writer + reader == mapper =
 prop("C03", "proof", "Lean 4 theorems: parameter-based retrace of mapper == specification (all record lists), cache == mapper (C02) + differential correspondence",
      "Parameter-based retrace of model vs crate on multi-class mappings with inline groups and repeated entries; oracle: mapper(pm) == cache, no duplicate methods, line 0 / no file.",
      "Model hand-written; tie is differential. Mapper side proved against PG/Spec/Retrace.lean (non-inlined entries, first occurrence per (obf,args,name), file order, line 0, no file, no duplicates, block-local); the cache side is C02.",
-     theorems=["PG.C03_mapper", "PG.C03_pm_false", "PG.C03_line_file", "PG.C03_no_inlined", "PG.C03_nodup", "PG.C03_class_local", "PG.C03_cache"], oracle=True)
+     theorems=["PG.C03_mapper", "PG.C03_pm_false", "PG.C03_line_file", "PG.C03_no_inlined", "PG.C03_nodup", "PG.C03_class_local", "PG.C03_cache", "PG.C03_file"], oracle=True)
 prop("C04", "proof", "Lean 4 theorems: class/method lookup of mapper == specification, cache == mapper (C02) + differential correspondence",
      "Class and method lookup of model vs crate on adversarially similar names and sort-order neighbours; oracle: method answer implies every line-based frame carries it.",
      "Model hand-written; tie is differential. Mapper side proved against PG/Spec/Retrace.lean (class lookup = last class line with that name; method lookup answers iff all entries agree; then every line-based frame carries that name); the cache side is C02.",
-     theorems=["PG.C04_class", "PG.C04_method", "PG.C04_method_frames", "PG.C04_cache_class", "PG.C04_cache_method"])
+     theorems=["PG.C04_class", "PG.C04_method", "PG.C04_method_frames", "PG.C04_cache_class", "PG.C04_cache_method", "PG.C04_file"])
 prop("C05", "proof", "Lean 4 round-trip theorems over the line grammar AST + differential correspondence",
      "Kernel-checked theorems over the documented line grammar (PG/Spec/Grammar.lean: an AST of class, field, method, key/value header, key header and R8 sourceFile header lines with printer and denoted record, written from the format description only): every well-formed line, followed by any terminator(s) and any further input or by the end of input, parses to exactly the record it denotes (names, types, argument string, foreign class split at the last dot, line mapping present iff both obfuscated numbers are positive, original start/end present iff printed); try_parse agrees; a file of such lines with any mix of CR/LF terminators (last one optional) yields exactly their records. Malformed families, each quantified over all well-formed components, yield an error item carrying the offending line: unspaced arrow, missing arrow, missing class colon, start line without end line, missing return type, indentation of 0-3 spaces. The parser model is tied to the crate on printed ASTs, malformed variants, every corpus line and all lines of <= 4 (quick) / 6 (thorough) tokens over a 12-token alphabet.",
      "Hypotheses the proofs force beyond the property text (all in Line.WF): a type may not start with a digit unless a start:end: prefix is printed; numbers < 2^64; header keys/values without surrounding Unicode whitespace; method names without '.'.",
@@ -94,7 +94,7 @@ prop("C17", "proof", "Lean 4 round-trip theorems over all well-formed traces + d
 prop("C18", "other", "Lean 4 SHA-1/UUIDv5 reference with structural theorems + independent hashlib computation",
      "The property is a defining equation, so restating it proves nothing. Lean supplies an executable SHA-1/UUIDv5 reference, kernel-checked structural theorems (definition unfolds to uuidV5(uuidV5(DNS,'guardsquare.com'), bytes); padding is whole 64-byte blocks; digest has 20 bytes; every identifier has 16 bytes with version nibble 5 and variant bits 10), and every run compares the crate's UUID with the Lean reference and with an independent hashlib computation on empty, corpus, LF/CRLF-twin and random inputs.",
      "Partial: that the crate computes this function is established differentially, not proved.",
-     theorems=["PG.C18_definition", "PG.C18_pad", "PG.C18_sha1_length", "PG.C18_version_variant"],
+     theorems=["PG.C18_definition", "PG.C18_pad", "PG.C18_sha1_length", "PG.C18_version_variant", "PG.C18_namespace", "PG.C18_empty"],
      explanation="The specification is the definition of the function; Lean supplies an executable reference and structural theorems (listed as obligations), hashlib an independent second opinion; the tie to the crate is differential.")
 prop("C19", "proof", "Lean 4 theorems over all byte strings + differential correspondence",
      "Kernel-checked theorems for every byte string: has_line_info is true iff some method record in the stream carries a line mapping; class/method counts equal the numbers of class/method records; compiler, compiler_version and min_api are the values of the last corresponding headers (a later value-less or non-u32 header resets); is_valid is true iff among the first 50 items a class record is followed by a field or method record. The model's folds are tied to the crate's early-exit loops by the differential run (late evidence, repeated/malformed headers, 49/50/51 leading noise lines, corpus).",
